@@ -335,7 +335,18 @@ def f_accepts(a):
     for s in a["cands"]:
         t = tuple(s) if a["level"] == "byte" else tuple(s)
         (yes if g(t) > 0 else no).append([tname(x) for x in t])
-    return {"op": "accepts", "text": lark_text(LG), "G": G, "yes": yes, "no": no, "level": a["level"]}
+    out = {"op": "accepts", "text": lark_text(LG), "G": G, "yes": yes, "no": no, "level": a["level"]}
+    if a.get("lm"):
+        # the same grammar used as a guide: BoolCFGLM(g)(s + eos) is non-zero exactly for the accepted strings
+        from genlm.grammar.cfglm import BoolCFGLM, EOS
+        lm = BoolCFGLM(g, alg=a["lm"])
+        lyes, lno = [], []
+        for s in a["cands"][:10]:
+            t = tuple(s)
+            if all(x in lm.V for x in t):
+                (lyes if lm(t + (EOS,)) > 0 else lno).append([tname(x) for x in t])
+        out["yes"], out["no"] = yes + lyes, no + lno
+    return out
 
 
 FUNCS.update({"lark": f_lark, "larkbytes": f_larkbytes, "accepts": f_accepts})
